@@ -1482,6 +1482,16 @@ fn dump_idioms() {
     }
 }
 
+/// libFuzzer entry: the input bytes are the entropy tape (little-endian u32 words); same
+/// generator, same oracle as the proptest tiers.
+#[allow(dead_code)]
+pub fn fuzz_bytes(data: &[u8]) {
+    let tape = fv::tape::words_from_bytes(data, 1200);
+    let case = decode(&mut Tape::new(&tape));
+    engine::fuzz_one("C17", &case, &render, &check);
+}
+
+#[allow(dead_code)]
 fn main() -> std::process::ExitCode {
     if std::env::args().any(|a| a == "--dump-idioms") {
         dump_idioms();
